@@ -1,6 +1,6 @@
 CONSTANTS
   NS = 2
-  NML = 1
+  NML = 0
   WH = {}
   WS = {}
   ParentCancels = FALSE
